@@ -501,7 +501,9 @@ impl Property for C18 {
         ))
     }
     fn run_choices(&self, ctx: &mut Ctx) -> Outcome {
-        let mut nw = NetWorld::new(ctx.src.u16() as u64);
+        let seed16 = ctx.src.u16() as u64;
+        let idb = id_base(seed16);
+        let mut nw = NetWorld::new(seed16);
         let limit = 1 + ctx.src.below(3);
         // a tenth of the cases run the servers in the Unsecure development mode (tokens sealed with the all-zero key)
         let unsecure = ctx.src.chance(25);
@@ -536,7 +538,7 @@ impl Property for C18 {
                 ctx.label("challenge_then_silent_address");
             }
             let expire = ctx.src.pick(&[600u64, 600, 8, 20]);
-            let t = w.nw.mint(&TokenSpec { client_id: 700 + i as u64, user: i as u64, expire_seconds: expire, timeout, addrs, key: token_key, protocol: PROTO });
+            let t = w.nw.mint(&TokenSpec { client_id: idb + 700 + i as u64, user: i as u64, expire_seconds: expire, timeout, addrs, key: token_key, protocol: PROTO });
             let expire_ts = w.nw.now.as_secs() + expire;
             w.nw.add_client(t, client_addr(i), i as u64);
             if n_silent > 0 {
